@@ -7,6 +7,7 @@ R13.3  mock bodies raise: every path of _transform_to_mock that writes a `def` w
 R13.4  naming agreement: client class / module / Protocol / mock class names are derived from the canonical tag by the
        same functions in all six places
 R13.8  no function of visit/endpoint changes its IROperation (or an alias of one of its attributes) in place: the three renderings see one operation
+R13.13 a model class never takes the name `Protocol` (or another name the tag modules use): client / Protocol module importable next to the mock   [= R20.13]
 R13.12 a stream declared under `default` (the primary response when nothing else is declared) is yielded by the client method: the flag that lets the
        wildcard arm write the strategy's return evaluates to true for a streaming strategy with a default response that has content
 R13.11 the emitter that renames colliding operation ids in the shared IR runs before every emitter that derives method names from them (the mocks see the final names)
@@ -233,6 +234,9 @@ def run(repo: Repo, rep: Report, tier: str) -> None:
     rule_range_primary_gets_an_arm(repo, rep, "R13.10")
     rule_mocks_after_the_renamer(repo, rep, "R13.11")
     rule_streamed_default_is_yielded(repo, rep, "R13.12")
+    from rules.c20 import rule_models_spare_endpoint_names
+
+    rule_models_spare_endpoint_names(repo, rep, "R13.13")
     # ---------------------------------------------------------------- R13.6 one-line sniffing obliges the signature writer
     # A consumer that looks for the return annotation in ONE rendered line (the line that closes the signature) relies on the
     # signature writer putting the whole annotation on that line; a consumer that joins the collected lines does not.
